@@ -2,6 +2,7 @@ package main
 
 import (
 	"flag"
+	"runtime/pprof"
 	"fmt"
 	"os"
 	"sort"
@@ -30,6 +31,16 @@ func main() {
 	flag.Parse()
 	if env := os.Getenv("VERIF_TIER"); env != "" && *tier == "quick" {
 		*tier = env
+	}
+	if pf := os.Getenv("GOVC_PROF"); pf != "" {
+		f, _ := os.Create(pf)
+		pprof.StartCPUProfile(f)
+		go func() {
+			time.Sleep(25 * time.Second)
+			pprof.StopCPUProfile()
+			f.Close()
+			os.Exit(3)
+		}()
 	}
 	t0 := time.Now()
 	w, err := loadWorld(*repo, nil)
